@@ -2058,6 +2058,7 @@ func runC12(c *rt.Ctx) {
 	c.Assume("BIP340 verification of the evaluator is the harness's own math/big implementation, validated at start-up against BIP340 test vector 0 and against btcec-made signatures of all seven keys")
 	c.Assume("locktimes are now-10^6 s / now+10^6 s: no outcome depends on the wall clock")
 	t0 := time.Now()
+	lkLibSerializer(c, "C12", "P2PK", now)
 	c12Layer1(c, now)
 	c.Cov["layer1_wall_s"] = time.Since(t0).Seconds()
 	t1 := time.Now()
